@@ -108,7 +108,14 @@ func runC13(h rmHist, st *c13stats) (out []*c12result) {
 		return out
 	}
 	db := crashdb.New()
-	s, err := rmOpen(db, h.N, h.Pruning, -1)
+	n0 := h.N
+	if h.Reopen == 5 {
+		// the last substore is mounted for the first time before commit 2 (its own version numbers
+		// then lag one behind the multistore's); crashes are enumerated from commit 3 on - its
+		// first commit falls under the first-commit class already recorded
+		n0 = h.N - 1
+	}
+	s, err := rmOpen(db, n0, h.Pruning, -1)
 	if err != nil {
 		return fail("open-fresh", "cannot open fresh store: %v", err)
 	}
@@ -143,7 +150,15 @@ func runC13(h rmHist, st *c13stats) (out []*c12result) {
 				return fail("reopen-between-commits", "reopening before commit %d fails: %v", v, err)
 			}
 		}
+		if h.Reopen == 5 && v == 2 {
+			if s, err = rmOpenLazy(db, h.N, h.Pruning, -1, false); err != nil {
+				return fail("reopen-with-added-store", "reopening with one more substore before commit %d fails: %v", v, err)
+			}
+		}
 		for i, c := range cs {
+			if h.Reopen == 5 && v == 1 && i == h.N-1 {
+				continue
+			}
 			rmApplyChoice(s.kv(i), models[i], c)
 		}
 		if h.Reopen == 3 {
@@ -243,6 +258,9 @@ func runC13(h rmHist, st *c13stats) (out []*c12result) {
 	}
 	for vi, rec := range recs {
 		v := int64(vi + 1)
+		if h.Reopen == 5 && v < 3 {
+			continue
+		}
 		atomic.AddInt64(&st.commits, 1)
 		states, bad := crashStates(rec.log)
 		if bad != "" {
@@ -520,12 +538,16 @@ func C13(tier string) int {
 		what          string
 	}
 	modes := []mode{{0, 0, ""}, {0, 1, " [reopened before every commit]"}, {0, 2, " [reopened lazily before every commit]"}, {1, 0, " [stores acc, accounts, a]"},
-		{0, 3, " [older versions loaded on a copy before every commit]"}, {0, 4, " [reopened before every commit, pruning options set after loading]"}}
+		{0, 3, " [older versions loaded on a copy before every commit]"}, {0, 4, " [reopened before every commit, pruning options set after loading]"},
+		{0, 5, " [last substore mounted for the first time before commit 2, crashes from commit 3 on]"}}
 	for _, md := range modes {
 		md := md
 		atomic.StoreInt32(&rmNameVariant, int32(md.names))
 		for _, j := range jobs {
 			if md.names == 1 && j.n < 2 {
+				continue
+			}
+			if md.reopen == 5 && (j.n < 2 || j.v < 3) {
 				continue
 			}
 			cnt := int64(0)
